@@ -15,6 +15,8 @@ type RaceReport struct {
 	Frames [2]string
 	// Lines: the source position of those frames.
 	Lines [2]string
+	// Top: the innermost frame of each access, whatever package it is in.
+	Top [2]string
 }
 
 // Signature identifies the racing pair of library functions.
@@ -53,6 +55,9 @@ func ParseRace(stderr string) *RaceReport {
 			sec = 2
 			continue
 		}
+		if sec >= 0 && sec <= 1 && r.Top[sec] == "" && t != "" && !strings.HasPrefix(t, "/") && strings.Contains(t, "(") {
+			r.Top[sec] = t
+		}
 		if sec < 0 || sec > 1 || r.Frames[sec] != "" {
 			continue
 		}
@@ -81,8 +86,11 @@ func ParseRace(stderr string) *RaceReport {
 // "f|g": which two accesses the detector pairs up first depends on the order
 // in which the tasks ran, so one common library function is enough.
 func SameRace(sig string, r *RaceReport) bool {
-	if r == nil || !r.InLibrary() {
+	if r == nil {
 		return false
+	}
+	if !r.InLibrary() {
+		return sig == "|" && r.InStdlibOnValues()
 	}
 	for _, f := range strings.Split(sig, "|") {
 		if f != "" && (f == r.Frames[0] || f == r.Frames[1]) {
@@ -90,4 +98,17 @@ func SameRace(sig string, r *RaceReport) bool {
 		}
 	}
 	return false
+}
+
+// InStdlibOnValues reports whether both accesses happen inside the standard
+// library or the runtime (not in harness code): the harness shares nothing
+// writable between tasks, so the memory must be reachable from values the
+// library handed to two callers (a shared error value, a shared buffer).
+func (r *RaceReport) InStdlibOnValues() bool {
+	for _, t := range r.Top {
+		if t == "" || strings.HasPrefix(t, "dsim/") || strings.HasPrefix(t, "main.") {
+			return false
+		}
+	}
+	return true
 }
